@@ -80,3 +80,22 @@ func verifSkipJoin(e, other *Active, pt Point64, checkCurrX bool) bool {
 	}
 	return false
 }
+
+// verifMicroFixMode is the counter-factual switch of the 'micro self-intersection' finding:
+// 0 = unchanged, 1 = the re-routing branch of fixSelfIntersects is skipped when the triangle it
+// adds to the ring (op.prev, op.next.next, op) is not micro (doubled area > 4), 2 = always skipped.
+var verifMicroFixMode int
+
+// VerifSetMicroFixMode selects the counter-factual (see verifMicroFixMode).
+func VerifSetMicroFixMode(m int) { verifMicroFixMode = m }
+
+func verifSkipMicroFix(op *OutPt) bool {
+	switch verifMicroFixMode {
+	case 1:
+		a := areaTriangle(op.prev.pt, op.next.next.pt, op.pt)
+		return a > 2 || a < -2
+	case 2:
+		return true
+	}
+	return false
+}
